@@ -1,11 +1,156 @@
-//! C13, second machine: formula evaluations sharing one BDDEnv<NamedSymbol>.
-use crate::engine::*;
-use serde_json::Value;
+//! C13, second machine: formula evaluations sharing one BDDEnv<NamedSymbol> under a
+//! common ordering (the caller-side precondition: an id must mean the same name).
 
-pub fn run_shared_formulas(_ctx: &mut Ctx) -> Result<(), Violation> {
+use crate::engine::*;
+use crate::front;
+use crate::gen::{self, Cfg};
+use crate::plain;
+use crate::rlex;
+use crate::rparse;
+use crate::rprint;
+use crate::rsem;
+use crate::tt::TT;
+use crate::util::{self, fnv_str, Tape};
+use rsbdd::bdd::{BDDEnv, BDD};
+use rsbdd::parser::ParsedFormula;
+use rsbdd::NamedSymbol;
+use serde_json::{json, Value};
+use std::io::BufReader;
+use std::rc::Rc;
+
+type NB = Rc<BDD<NamedSymbol>>;
+
+pub fn pool() -> Vec<String> {
+    ["a", "b", "c", "x", "y", "X", "Y", "F'", "unused_1"].iter().map(|s| s.to_string()).collect()
+}
+
+fn ordering(pool: &[String]) -> Vec<NamedSymbol> {
+    pool.iter().enumerate().map(|(i, n)| front::sym(n, i)).collect()
+}
+
+fn env_invariants(env: &BDDEnv<NamedSymbol>, live: &[NB]) -> Result<(), String> {
+    let nodes = env.nodes.borrow();
+    if !nodes.get(&BDD::True).map(|t| t.is_true()).unwrap_or(false) {
+        return Err("the shared environment lost its true leaf".into());
+    }
+    if !nodes.get(&BDD::False).map(|t| t.is_false()).unwrap_or(false) {
+        return Err("the shared environment lost its false leaf".into());
+    }
+    for (k, v) in nodes.iter() {
+        if k != v.as_ref() {
+            return Err("unique-table entry maps a structure to a different node".into());
+        }
+    }
+    for h in live {
+        for n in plain::reachable(h) {
+            match nodes.get(n.as_ref()) {
+                Some(e) if Rc::ptr_eq(e, &n) => {}
+                _ => {
+                    return Err(format!(
+                        "sub-diagram {} of a result is not the shared environment's own node",
+                        plain::render(&n)
+                    ))
+                }
+            }
+        }
+    }
     Ok(())
 }
 
+pub fn check_texts(texts: &[String]) -> Check {
+    let cj = json!({"kind": "shared-formulas", "texts": texts});
+    let v = |m: String| Violation::new(m, cj.clone());
+    let pool = pool();
+    guarded(&cj.clone(), || {
+        let env = Rc::new(BDDEnv::<NamedSymbol>::new());
+        let mut results: Vec<NB> = Vec::new();
+        let mut snaps: Vec<NB> = Vec::new();
+        let mut tabs: Vec<TT> = Vec::new();
+        for (i, text) in texts.iter().enumerate() {
+            let parsed = rparse::parse_text(text.as_bytes()).map_err(|e| v(format!("HARNESS: reference parser: {}", e)))?;
+            let idents = rlex::identifiers(&parsed.tokens);
+            if idents.iter().any(|n| !pool.contains(n)) {
+                return Err(v("HARNESS: formula uses a name outside the common ordering".into()));
+            }
+            let oracle = rsem::table(&parsed.ast, &pool).map_err(|e| v(format!("HARNESS: reference semantics: {:?}", e)))?;
+            rsbdd::bdd::verif_hooks::set_fp_iteration_limit(Some((1 << pool.len()) + 2));
+            let shared = {
+                let mut rd = BufReader::new(text.as_bytes());
+                let pf = ParsedFormula::new_with_env(Rc::clone(&env), &mut rd, Some(ordering(&pool)))
+                    .map_err(|e| v(format!("formula {} rejected: {}", i, e)))?;
+                pf.eval()
+            };
+            let fresh = {
+                let mut rd = BufReader::new(text.as_bytes());
+                let pf = ParsedFormula::new(&mut rd, Some(ordering(&pool))).map_err(|e| v(format!("formula {} rejected: {}", i, e)))?;
+                pf.eval()
+            };
+            rsbdd::bdd::verif_hooks::set_fp_iteration_limit(None);
+            if shared.as_ref() != fresh.as_ref() {
+                return Err(v(format!(
+                    "formula {} `{}` evaluates to {} in the shared environment (after {} earlier formulas) but to {} in a fresh one",
+                    i,
+                    text,
+                    plain::render(&shared),
+                    i,
+                    plain::render(&fresh)
+                )));
+            }
+            let t = front::table_by_name(&shared, &pool).map_err(|e| v(e))?;
+            if t != oracle {
+                return Err(v(format!("formula {} `{}`: table {} differs from the reference {}", i, text, t.to_hex(), oracle.to_hex())));
+            }
+            snaps.push(plain::deep_clone(&shared));
+            tabs.push(t);
+            results.push(shared);
+            for j in 0..results.len() {
+                if results[j].as_ref() != snaps[j].as_ref() {
+                    return Err(v(format!("after formula {}: the result of formula {} changed", i, j)));
+                }
+                let tj = front::table_by_name(&results[j], &pool).map_err(|e| v(e))?;
+                if tj != tabs[j] {
+                    return Err(v(format!("after formula {}: the result of formula {} denotes another function", i, j)));
+                }
+            }
+            env_invariants(&env, &results).map_err(|e| v(format!("after formula {}: {}", i, e)))?;
+        }
+        Ok(())
+    })
+}
+
+pub fn run_shared_formulas(ctx: &mut Ctx) -> Result<(), Violation> {
+    let cases = ctx.tier.pick(1_500, 40_000);
+    let r = par_random(ctx, "shared-formulas", cases, 600, |tape, st| {
+        let mut t = Tape::new(tape);
+        let n = 2 + t.choose(5);
+        let mut texts = Vec::new();
+        for _ in 0..n {
+            let mut cfg = Cfg::standard(5, 1 + t.choose(4));
+            cfg.names = ["a", "b", "c", "x", "y"].iter().map(|s| s.to_string()).collect();
+            cfg.fix_names = vec!["X".into(), "Y".into(), "a".into(), "F'".into()];
+            cfg.max_list = 3;
+            cfg.big_consts = false;
+            let ast = gen::formula(&mut t, &cfg);
+            texts.push(rprint::plain(&ast));
+        }
+        st.eval();
+        st.class_n("formulas-evaluated-in-shared-environments", n as u64);
+        let key = texts.join("\n");
+        if st.nontrivial(fnv_str(&key)) {
+            st.nt_sample(|| json!({"kind": "shared-formulas", "texts": texts}));
+        }
+        check_texts(&texts)
+    });
+    let _ = util::fnv(b"");
+    ctx.stage("formulas-sharing-one-environment", false, r)
+}
+
 pub fn replay(case: &Value) -> Check {
-    Err(Violation::new("unreadable replay case", case.clone()))
+    let texts: Option<Vec<String>> = case["texts"]
+        .as_array()
+        .map(|a| a.iter().filter_map(|x| x.as_str().map(|s| s.to_string())).collect());
+    match texts {
+        Some(t) => check_texts(&t),
+        None => Err(Violation::new("unreadable replay case", case.clone())),
+    }
 }
